@@ -139,6 +139,29 @@ PROPS = {
         "note": "template arguments (characters, masks, values) are compile-time: boundary-structured samples only; the native "
                 "aggregator for the large spaces is trusted code cross-checked by raw sampled records",
     },
+    "C14": {
+        "families": ["obs_json"],
+        "must_count": ["cases"],
+        "nontrivial_key": "cases",
+        "level": "RFC 8259 is written in TLA+ as a set-valued recogniser (Json8259: union for alternatives, relational composition "
+                 "for concatenation, closure for repetition, UTF-8 well-formedness from Table 3-7), i.e. language-exact and "
+                 "independent of PEG ordering; TLC decides membership for every input and compares it with what the real "
+                 "seq< json::text, eof > returned (accept / reject, never an exception)",
+        "rule": "cases = byte string: all strings over 24 representative bytes to the bound, every byte in five syntactic positions, "
+                "grammar-derived documents (nesting <= 3) with six single-edit mutations each, the repository's sample files; every "
+                "record is judged",
+    },
+    "C20": {
+        "families": ["obs_uri"],
+        "must_count": ["cases"],
+        "nontrivial_key": "cases",
+        "level": "RFC 3986 Appendix A is written in TLA+ as a set-valued recogniser (Uri3986) for URI, URI-reference, absolute-URI, "
+                 "IPv4address and IPv6address; TLC decides derivability for every input and compares it with the result of the real "
+                 "rule followed by eof (a parse_error counts as rejection, any other exception is a violation)",
+        "rule": "cases = rule x string: all strings over {a 1 : / ? # [ ] @ . % -} to the bound, products of interesting octets for "
+                "IPv4, every IPv6 shape (groups left/right of ::, embedded IPv4, group lengths 1/4/5, bad groups), URIs sampled "
+                "from the RFC grammar with four single-edit mutations each; every record is judged",
+    },
     "C19": {
         "families": ["obs_lines"],
         "must_count": ["cases"],
